@@ -1,7 +1,7 @@
 """Common body of the spec-class core checks (C01-C06): same pipeline, each keeps its own clauses."""
 from .. import common, specclass_run as R, tla
 
-ALL = ["scalars", "list_int", "set_str", "set_int", "dict_int", "nested", "nested_prep", "nested_prep_boom", "prepared", "prep_nonidem", "list_spec", "klist", "kset", "dict_spec",
+ALL = ["scalars", "list_int", "list_int3", "bounded_attr", "nested_overflow", "set_str", "set_int", "dict_int", "nested", "nested_prep", "nested_prep_boom", "prepared", "prep_nonidem", "list_spec", "klist", "kset", "dict_spec",
        "dnc_attr", "dnc_attr_decl", "dnc_class", "dflt_kinds", "dflt_kinds2", "inherit_spec", "inherit_plain", "inherit_plain_mut", "inherit_dnc", "inherit_dnc_items", "spec_plain_spec", "bad_default", "attrs_arg", "sibling_redeclare", "dnc_iprep", "dnc_plain_redefault", "eager"]
 ELEM = {"with_item", "update_item", "transform_item", "without_item"}
 
